@@ -84,6 +84,8 @@ pub struct SeederCfg {
     pub serve_while_choking: bool,
     /// Have messages sent later: (at served-blocks count, piece)
     pub late_haves: Vec<(u64, usize)>,
+    /// choke-state messages at fixed times after connecting: (ms, action)
+    pub timed: Vec<(u64, ChokeAct)>,
 }
 
 impl SeederCfg {
@@ -103,6 +105,7 @@ impl SeederCfg {
             leech: false,
             serve_while_choking: false,
             late_haves: vec![],
+            timed: vec![],
         }
     }
 }
@@ -175,6 +178,7 @@ async fn seeder_task(cfg: SeederCfg, mut io: PeerIo) {
     if let Some(ms) = cfg.unchoke_after_ms {
         if ms > 0 { queue.push_back((start + ms, Act::Choke(ChokeAct::Unchoke))); }
     }
+    for (ms, a) in &cfg.timed { queue.push_back((start + ms, Act::Choke(a.clone()))); }
     let mut plan: VecDeque<(u64, ChokeAct, u64)> = cfg.choke_plan.iter().cloned().collect();
     let mut late: VecDeque<(u64, usize)> = cfg.late_haves.iter().cloned().collect();
     // outstanding requests per piece, to know which block completes a piece
